@@ -227,6 +227,24 @@ def check_not_vacuous(r, actions, what):
         raise ToolError("vacuous TLC run '%s': actions never taken: %s" % (what, missing))
 
 
+def tlapm(spec_dir, module, timeout=900):
+    """Runs the TLA+ proof system on a module (in a scratch copy); returns the number of obligations, all of which were proved."""
+    w = workdir("tlapm_" + module)
+    shutil.copy(Path(spec_dir) / (module + ".tla"), w / (module + ".tla"))
+    t0 = time.time()
+    try:
+        p = subprocess.run(["tlapm", "--threads", "4", module + ".tla"], cwd=w, capture_output=True, text=True, timeout=timeout)
+    except subprocess.TimeoutExpired:
+        raise ToolError("tlapm timed out on %s" % module)
+    out = p.stdout + p.stderr
+    m = re.search(r"All (\d+) obligations? proved", out)
+    log("[tlapm] %s: %.1fs" % (module, time.time() - t0))
+    if p.returncode != 0 or not m:
+        log(out[-3000:])
+        raise ToolError("tlapm did not prove %s" % module)
+    return int(m.group(1))
+
+
 def parallel(fn, items, jobs=8):
     with ThreadPoolExecutor(max_workers=jobs) as ex:
         return list(ex.map(fn, items))
